@@ -1176,7 +1176,7 @@ pub fn run(scen: &str, tier: &str, rep: &mut Report) -> bool {
     let mut cases: Vec<Case> = cfgs.iter().flat_map(|c| partition(c, 2, 40)).collect();
     // share the wall budget between the children (16 run at a time)
     let total_secs: u64 = if tier == "thorough" { 1800 } else { 40 };
-    let per_child = (total_secs * 16 / cases.len().max(1) as u64).clamp(if tier == "thorough" { 20 } else { 10 }, total_secs);
+    let per_child = (total_secs * 16 / cases.len().max(1) as u64).clamp(if tier == "thorough" { 20 } else { 15 }, total_secs);
     for c in &mut cases {
         c.deadline_secs = per_child;
     }
